@@ -37,6 +37,7 @@ def main(argv):
     core.setup_path()
     mod = core.load_prop(prop)
     soft, hard = getattr(mod, 'BUDGET', BUDGET)[tier]
+    hard = int(os.environ.get('VERIF_HARD', hard))
     jobs = min(jobs, getattr(mod, 'MAX_JOBS', 64))
     scratch = tempfile.mkdtemp(prefix='vf')
     env = dict(os.environ)
@@ -61,7 +62,9 @@ def main(argv):
             except subprocess.TimeoutExpired:
                 p.kill()
                 p.wait()
-                lost.append((sh, 'watchdog'))
+                log.flush()
+                tail = open(os.path.join(scratch, 'w%d.log' % sh), 'rb').read()[-1500:].decode('latin-1')
+                lost.append((sh, 'watchdog: ' + tail))
                 continue
             finally:
                 log.close()
